@@ -105,10 +105,14 @@ def isolate(unit_path, final):
         pat = fn_pattern(fn)
         if not pat:
             continue
-        r = run_verus_once(unit_path, only_fn=pat)
-        if r.get('status') == 'ok' and r.get('verified', 0) > 0:
-            final['failures'] = [f for f in final['failures'] if f.get('fn') != fn]
-            final.setdefault('isolated_proofs', []).append(short_fn(fn))
+        for seed in (None, 7, 1234):
+            r = run_verus_once(unit_path, only_fn=pat, seed=seed)
+            if r.get('status') == 'ok' and r.get('verified', 0) > 0:
+                final['failures'] = [f for f in final['failures'] if f.get('fn') != fn]
+                final.setdefault('isolated_proofs', []).append(short_fn(fn))
+                break
+            if r.get('status') != 'failed' and not str(r.get('reason', '')).startswith('solver resource limit'):
+                break   # does not compile / pattern matched nothing: isolation adds no information
     if not final['failures'] and not final.get('undecided_fns'):
         final['status'] = 'ok'
 
@@ -351,14 +355,19 @@ def safety_props(em, fn):
 
 
 def load_safety(em, lines):
-    """`// @safety C03,C18` anywhere in a function's emitted text."""
+    """Properties the *safety obligation* of a function counts for (no panic / overflow / out-of-bounds, callee
+    preconditions, unlabelled invariants and hints, termination): C03, the properties named by `// @safety C03,C18`
+    in the function's emitted text, and every property that labels a clause of the function -- a function that can
+    violate a callee's precondition does not establish its clauses."""
     res = {}
     for fn, info in em.functions.items():
         props = {'C03'}
         for idx in range(info['first_line'] - 1, min(info.get('last_line', info['first_line']), len(lines))):
             m = re.search(r'//\s*@safety\s+([C0-9,]+)', lines[idx])
             if m:
-                props = set(m.group(1).split(','))
+                props |= set(m.group(1).split(','))
+        for lab in info.get('labels', []):
+            props |= set(lab['props'])
         res[fn] = props
     return res
 
@@ -446,7 +455,7 @@ def scan_trusted(run):
 FIXED_TRUST = [
     'rustc/LLVM compile the source text as Verus and Kani interpret it',
     'Verus 0.2026.09.13 + Z3 are sound; Kani 0.68 + CBMC 6.11 are sound',
-    'extraction rewrite rules R1-R14 and the W1 reborrow (tools/rewrites.py, unit @@sub lines, DESIGN 2.1) preserve semantics',
+    'extraction rewrite rules R1-R15 and the W1 reborrow (tools/rewrites.py, unit @@sub lines, DESIGN 2.1) preserve semantics',
     'usize is 64 bit (global size_of usize == 8); every allocation is <= isize::MAX bytes',
     'the Verus-side statement of each protocol-layer contract (verus/prelude/protocol.rs) is the one the Kani harness of the same name proves',
 ]
@@ -648,6 +657,12 @@ def main(argv):
         'wall_s': round(time.time() - t0, 2),
         'violations': len(new_viol) if rc == 1 else 0,
     }
+    ev['coverage']['verdict'] = {0: 'held', 1: 'violation', 2: 'undecided'}[rc]
+    if rc == 2:
+        # an undecided run proves nothing: no obligation is reported as discharged
+        ev['coverage']['discharged'] = 0
+        ev['coverage']['distinct_nontrivial'] = 0
+        ev['coverage']['undecided_because'] = [l for l in lines_out if l.startswith('UNDECIDED')][:10]
     # evidence/ describes /repo itself; runs against a scratch copy (VERIF_REPO, self-tests) write elsewhere
     evdir = os.path.join(VERIF, 'evidence') if REPO == '/repo' else os.path.join(WORK, 'evidence-scratch')
     os.makedirs(evdir, exist_ok=True)
